@@ -105,6 +105,9 @@ func readUvarint(b []byte) (uint64, int) {
 			return 0, -1
 		}
 		if c < 0x80 {
+			if c == 0 && i > 0 {
+				return 0, -1 // not minimally encoded (unsigned-varint: no redundant continuation bytes)
+			}
 			return x | uint64(c)<<s, i + 1
 		}
 		x |= uint64(c&0x7f) << s
